@@ -23,7 +23,7 @@ sys.path.insert(0, os.path.join(VERIF, 'gen'))
 import nlgen
 from nlgen import Model, Rng
 
-PROP_MIN_THEOREMS = 40
+PROP_MIN_THEOREMS = 30
 
 # every type except cones / unary-encoding marker: natively accepted in run A
 BASE_ACCEPT = ['LinConRange', 'LinConLE', 'LinConEQ', 'LinConGE',
@@ -370,7 +370,7 @@ def gen_case(rng, family):
     elif family == 'impl':
         c, t, e, b = [m.var(0, 1, True) for _ in range(4)]
         L = ('implies', ('eq', ('v', c), ('n', 1)), ('eq', ('v', t), ('n', 1)),
-             ('eq', ('v', e), ('n', 1)) if rng.chance(2, 3) else ('T',))
+             ('eq', ('v', e), ('n', 1)) if rng.chance(7, 8) else ('T',))
         embed_logical(rng, m, L, b)
     elif family == 'cond':
         k = rng.rint(1, 3)
@@ -387,7 +387,7 @@ def gen_case(rng, family):
         # implication b ==> linear comparison gives an indicator; bounds decide the big-M
         k = rng.rint(1, 3)
         xs = [m.var(*rand_bounds(rng, 'any')) for _ in range(k)]
-        if rng.chance(1, 8):
+        if rng.chance(1, 4):
             j = rng.below(k)
             m.vars[xs[j]]['ub' if rng.chance(1, 2) else 'lb'] = None
             if rng.chance(1, 2):
@@ -397,6 +397,8 @@ def gen_case(rng, family):
         rhs = F(rng.rint(-6, 8), rng.choice([1, 1, 2]))
         cond = ('eq', ('v', b), ('n', rng.choice([0, 1, 1])))
         m.lcon(('implies', cond, (rel, lin_expr(rng, xs), ('n', rhs)), ('T',)))
+        # conditional comparisons are rewritten in both runs, so that indicator constraints arise
+        opts['base'] = ['acc:condlineq=0', 'acc:condlinle=0', 'acc:condlinge=0', 'acc:condlinlt=0', 'acc:condlingt=0']
     elif family == 'count':
         k = rng.rint(2, 4)
         xs = [m.var(*rand_bounds(rng, rng.choice(['bin', 'bin', 'int']))) for _ in range(k)]
@@ -454,7 +456,7 @@ FAMILIES = ['abs', 'min', 'max', 'and', 'or', 'not', 'ifthen', 'impl', 'cond', '
 
 
 def cvt_options(opts):
-    o = []
+    o = list(opts.get('base', []))
     if 'eps' in opts:
         o.append('cvt:cmp:eps=%r' % float(opts['eps']))
     if 'bigM' in opts:
@@ -576,6 +578,51 @@ def multiset_sub(a, b):
 SUBSET_TYPES = ('NumberofConstConstraint', 'CountConstraint')   # their var==const pieces are converted again in ConvertMaps
 
 
+CTX_RULE_TYPES = {'NotConstraint': 'Not', 'AndConstraint': 'And', 'OrConstraint': 'Or', 'ImplicationConstraint': 'Impl',
+                  'IfThenConstraint': 'IfThen', 'LinearFunctionalConstraint': 'Affine',
+                  'AbsConstraint': 'Default', 'MinConstraint': 'Default', 'MaxConstraint': 'Default', 'CountConstraint': 'Default',
+                  'DivConstraint': 'Default', 'NumberofConstConstraint': 'Default', 'NumberofVarConstraint': 'Default'}
+HASDIR = {'none': set(), 'pos': {'p'}, 'neg': {'n'}, 'mix': {'p', 'n'}}
+
+
+def check_ctx_rules(drv, consA, vsA, stats, case_id):
+    """every stored functional constraint with context c must have handed its arguments at least the contexts the
+    Lean rule prop<Type> assigns: the context stored on the constraint defining an argument includes it"""
+    bad = []
+    defctx = {}
+    for e in consA:
+        d = e['data']
+        if isinstance(d, dict) and 'res' in d and 'ctx' in d and d['res'] >= 0:
+            defctx[d['res']] = d['ctx']
+    for e in consA:
+        tn, d = e['type'], e['data']
+        op = None
+        if tn in CTX_RULE_TYPES:
+            ty = CTX_RULE_TYPES[tn]
+            if ty == 'Affine':
+                op = 'propfun type=Affine ctx=%s lin=%s' % (d['ctx'], lin_s(d['expr']['lin']))
+            else:
+                op = 'propfun type=%s ctx=%s args=%s' % (ty, d['ctx'], ','.join(str(a) for a in d['args']))
+        elif tn.startswith('CondLinCon'):
+            op = 'propfun type=CondLin kind=%s ctx=%s lin=%s' % (tn[-2:], d['ctx'], lin_s(d['con']['body']))
+        if op is None or d.get('ctx') == 'none':
+            continue
+        ans = drv.ask(op + ' ' + bnds_arg(vsA))
+        if not ans.startswith('ctx'):
+            bad.append({'type': tn, 'why': 'driver bad-op on ' + op, 'case': case_id, 'ops': [op], 'ctx_rule': True})
+            continue
+        for t in ans.split(' ')[1:]:
+            v, c = t.split(':')
+            v = int(v)
+            if v in defctx:
+                stats['ctx_edges'] = stats.get('ctx_edges', 0) + 1
+                if not HASDIR[c] <= HASDIR[defctx[v]]:
+                    bad.append({'type': tn, 'case': case_id, 'ops': [op], 'ctx_rule': True,
+                                'why': 'context propagation: %s with context %s must hand %s to variable %d, but its defining constraint carries only %s'
+                                       % (tn, d['ctx'], c, v, defctx[v])})
+    return bad
+
+
 def check_case(ck, exe, drv, stub, m, opts, stats, case_id):
     """runs A/B for every gadget type present in the model; returns list of disagreement dicts"""
     m.write(stub)
@@ -592,7 +639,7 @@ def check_case(ck, exe, drv, stub, m, opts, stats, case_id):
     for e in consA:
         if e['type'] in GADGETS and e['type'] not in present:
             present.append(e['type'])
-    bad = []
+    bad = check_ctx_rules(drv, consA, vsA, stats, case_id)
     for tn in present:
         accopt, g = GADGETS[tn]
         rb = recsolver.run(exe, stub, options=base_opts + [accopt + '=0'], accept=BASE_ACCEPT)
@@ -705,6 +752,191 @@ def is_map_phase_str(c, vs):
     return False
 
 
+# ----------------------------------------------------------------------------- context propagation (A0)
+def compile_delivered(cons):
+    """pre-decode delivered algebraic/indicator constraints: list of (b, bv, lin, quad, lb, ub) or None if not evaluable"""
+    out = []
+    for e in cons:
+        tn, d = e['type'], e['data']
+        b = bv = None
+        if tn.startswith('Indicator'):
+            b, bv = d['b'], d['bv']
+            d = d['con']
+        elif not (tn.startswith('LinCon') or tn.startswith('QuadCon')):
+            return None
+        body = d['body']
+        l = body['lin'] if 'quad' in body else body
+        q = body['quad'] if 'quad' in body else {'c': [], 'v1': [], 'v2': []}
+        out.append((b, bv, [(nb(c), v) for c, v in zip(l['c'], l['v'])],
+                    [(nb(c), v, w) for c, v, w in zip(q['c'], q['v1'], q['v2'])], nb(d['lb']), nb(d['ub'])))
+    return out
+
+
+def eval_compiled(cc, x):
+    for b, bv, l, q, lb, ub in cc:
+        if b is not None and x[b] != bv:
+            continue
+        v = sum(c * x[j] for c, j in l) + sum(c * x[j] * x[k] for c, j, k in q)
+        if (lb is not None and v < lb) or (ub is not None and v > ub):
+            return False
+    return True
+
+
+def eval_delivered(cons, x):
+    """exact evaluation of delivered algebraic/indicator constraints at point x (list of Fractions)"""
+    def lin(d):
+        return sum((nb(c) * x[v] for c, v in zip(d['c'], d['v'])), F(0))
+
+    def quad(d):
+        return sum((nb(c) * x[v] * x[w] for c, v, w in zip(d['c'], d['v1'], d['v2'])), F(0))
+
+    def body(b):
+        return lin(b['lin']) + quad(b['quad']) if 'quad' in b else lin(b)
+
+    def inrange(d):
+        v = body(d['body'])
+        lb, ub = nb(d['lb']), nb(d['ub'])
+        return (lb is None or lb <= v) and (ub is None or v <= ub)
+    for e in cons:
+        tn, d = e['type'], e['data']
+        if tn.startswith('LinCon') or tn.startswith('QuadCon'):
+            if not inrange(d):
+                return False
+        elif tn.startswith('Indicator'):
+            if x[d['b']] == d['bv'] and not inrange(d['con']):
+                return False
+        else:
+            return None      # not evaluable here
+    return True
+
+
+def ctx_cases(ck, exe, drv, wd, stats):
+    """propagation through quadratic terms: compares the context the real code stores on abs(z) inside
+    c*(x*abs(z)) with the Lean rule `propQuad` (as coded) and searches a small grid for points that are
+    feasible for the delivered model (abs linearised, acc:abs=0) but violate the original constraint.
+    returns (disagreements, findings)"""
+    dis, findings = [], []
+    patterns = [(0, 5), (1, 4), (-5, 0), (-4, -1), (-2, 3)]
+    n = 0
+    for (xl, xu) in patterns:
+        for coef in (1, -1, 2, -3):
+            for sense in ('ge', 'le'):
+                n += 1
+                m = Model()
+                x = m.var(xl, xu)
+                z = m.var(-3, 3)
+                rhs = F(-4 if coef < 0 else 4) if sense == 'ge' else F(6 if coef > 0 else -6)
+                nl = ('*', ('n', F(coef)), ('*', ('v', x), ('abs', ('v', z))))
+                if coef == -1:
+                    nl = ('neg', ('*', ('v', x), ('abs', ('v', z))))
+                m.con(rhs if sense == 'ge' else None, rhs if sense == 'le' else None, nl=nl)
+                stub = os.path.join(wd, 'q%d' % (n % 4))
+                m.write(stub)
+                acc = ['LinConRange', 'LinConLE', 'LinConEQ', 'LinConGE', 'QuadConRange', 'QuadConLE', 'QuadConEQ', 'QuadConGE',
+                       'IndicatorLinConLE', 'IndicatorLinConEQ', 'IndicatorLinConGE']
+                ra = recsolver.run(exe, stub, accept=acc + ['AbsConstraint'])
+                rb = recsolver.run(exe, stub, options=['acc:abs=0'], accept=acc)
+                stats['runs'] += 2
+                if ra['rc'] != 0 or rb['rc'] != 0:
+                    continue
+                absc = [e for e in ra['log'] if e.get('ev') == 'con' and e['type'] == 'AbsConstraint']
+                qc = [e for e in ra['log'] if e.get('ev') == 'con' and e['type'].startswith('QuadCon')]
+                if len(absc) != 1:
+                    continue
+                vsA = vars_of(ra['log'])
+                seen_ctx = absc[0]['data']['ctx']
+                res = absc[0]['data']['res']
+                # the quadratic term as flattened from the generated expression: coef * x * res(abs)
+                lbs = bs(rhs, True) if sense == 'ge' else '-inf'
+                ubs = bs(rhs, False) if sense == 'le' else 'inf'
+                qterm = '%s*%d*%d' % (rs(coef), m.pos[x], res)
+                c0 = drv.ask('rangectx lb=%s ub=%s' % (lbs, ubs)).split(' ')[1]
+                ans = drv.ask('propquad quad=%s ctx=%s %s' % (qterm, c0, bnds_arg(vsA)))
+                want = dict(t.split(':') for t in ans.split(' ')[1:]).get(str(res))
+                ansf = drv.ask('propquadfixed quad=%s ctx=%s %s' % (qterm, c0, bnds_arg(vsA)))
+                wantf = dict(t.split(':') for t in ansf.split(' ')[1:]).get(str(res))
+                stats['ctx_cases'] = stats.get('ctx_cases', 0) + 1
+                if seen_ctx != want:
+                    dis.append({'type': 'PropagateResult2QuadTerms', 'case': 'quadctx#%d' % n, 'ops': [],
+                                'why': 'context stored on abs() is %s, the Lean rule propQuad (as coded) says %s (repaired rule: %s)' % (seen_ctx, want, wantf),
+                                'nl': open(stub + '.nl').read(), 'options': ['acc:abs=0'], 'ctx_rule': True,
+                                'matches_fixed_rule': seen_ctx == wantf})
+                # oracle on the real delivered model: grid over x, z; auxiliaries: v (abs result) on a grid, flag 0/1
+                consB = compile_delivered([e for e in rb['log'] if e.get('ev') == 'con'])
+                if consB is None:
+                    continue
+                vsB = vars_of(rb['log'])
+                perm = m.perm
+                bad_pt = None
+                for xv in range(int(xl), int(xu) + 1):
+                    for zv in range(-3, 4):
+                        orig = [None, None]
+                        orig[x] = F(xv); orig[z] = F(zv)
+                        feas_orig = m.feasible(orig)
+                        nlx = [orig[j] for j in perm]        # NL order
+                        feas_del = False
+                        auxn = len(vsB) - 2
+                        grids = []
+                        for k in range(2, len(vsB)):
+                            lo, hi, ty = vsB[k]
+                            if ty:
+                                grids.append([F(t) for t in range(int(lo), int(hi) + 1)])
+                            else:
+                                grids.append([F(t) for t in range(int(lo), int(hi) + 1)])
+                        for aux in itertools.product(*grids):
+                            r = eval_compiled(consB, nlx + list(aux))
+                            if r:
+                                feas_del = True
+                                break
+                        stats['oracle_points'] = stats.get('oracle_points', 0) + 1
+                        if feas_del and not feas_orig and bad_pt is None:
+                            bad_pt = (xv, zv, [str(t) for t in aux])
+                if bad_pt:
+                    findings.append({'case': 'quadctx#%d' % n, 'coef': coef, 'sense': sense, 'xbounds': [xl, xu],
+                                     'point': {'x': bad_pt[0], 'z': bad_pt[1], 'aux': bad_pt[2]},
+                                     'ctx_on_abs': seen_ctx, 'ctx_repaired_rule': wantf,
+                                     'nl': open(stub + '.nl').read(), 'options': ['acc:abs=0'],
+                                     'accept': ','.join(acc)})
+    return dis, findings
+
+
+def report(ck, res):
+    """turn the result of run_gadgets into verdicts"""
+    pid = getattr(ck, 'pid_real', ck.pid)
+    st = res.get('stats', {})
+    ck.cov['gadget_correspondence'] = {k: v for k, v in st.items() if k not in ('hit', 'unmodelled')}
+    ck.cov['gadget_hits'] = st.get('hit', {})
+    ck.cov['gadget_unmodelled_inputs'] = st.get('unmodelled', {})
+    ck.cov['traces_validated_against_impl'] = st.get('compared', 0)
+    ck.cov['evaluations'] = st.get('runs', 0)
+    ck.cov['distinct_nontrivial'] = st.get('compared', 0)
+    ck.cov['rule'] = 'one unit = one (generated model, constraint type) pair whose delivered model was compared with the Lean gadget output'
+    for f in res.get('findings', []):
+        ck.add_violation('quadterms-ctx:coef-sign-ignored',
+                         'PropagateResult2QuadTerms ignores the coefficient sign: with %s the delivered model (abs linearised in %s context only) admits x=%s z=%s which violates the original constraint'
+                         % (f['options'], f['ctx_on_abs'], f['point']['x'], f['point']['z']),
+                         {'nl': f['nl'], 'options': f['options'], 'accept': f['accept'], 'point': f['point'],
+                          'how': 'write the nl text to m.nl; RECSOLVER_ACCEPT=<accept> RECSOLVER_LOG=log recsolver m -AMPL acc:abs=0; evaluate the logged constraints at the point',
+                          'model_theorem': 'C01_counterexample_quadterms_ctx'}, found_input=True)
+    for d in res.get('disagreements', []):
+        sig = 'gadget:%s:%s' % (d['type'], 'refusal' if d.get('refusal_mismatch') else ('ctx-rule' if d.get('ctx_rule') else 'differs'))
+        ck.add_violation(sig, 'gadget correspondence: %s (%s)' % (d['why'], d['case']),
+                         {'stream': 'c01_gadgets', 'case': d['case'], 'seed': d.get('seed'), 'ops': d.get('ops'), 'nl': d.get('nl'),
+                          'options': d.get('options'), 'only_impl': d.get('only_impl'), 'only_model': d.get('only_model')},
+                         found_input=False)
+    if not res.get('proof_ok', True):
+        for fdecl in res.get('failing', []):
+            ck.add_violation('obligation:%s' % fdecl, 'proof obligation no longer checks: %s' % fdecl,
+                             {'theorem': fdecl, 'module': 'MpVerif.C01.Props'}, found_input=False)
+    ck.assumptions += [
+        'numbers are exact rationals; the correspondence uses dyadic data so that double arithmetic is exact',
+        'AssignResultVar2Args inside a converter is modelled for the no-shortcut/no-map-hit case; inputs on which the real code takes a preprocessing shortcut are counted as "unmodelled", not compared',
+        'a zero coefficient on a variable with an infinite bound (NaN in ComputeBoundsAndType) is outside the model',
+        'logical argument variables are 0/1 (asserted by the converter itself in count_fixed_01)']
+    ck.cov['trusted_base'] += ['harness/recsolver (recording ModelAPI) and gen/nlgen.py (NL writer + exact evaluator)',
+                               'checks/c01_gadgets.py: canonicalisation of logged constraints, run-A/run-B differential scheme']
+
+
 def run_gadgets(ck, n_cases=None, proof=True):
     """proof stage + gadget correspondence; returns dict(proof_ok, failing, disagreements)"""
     t0 = time.time()
@@ -741,11 +973,20 @@ def run_gadgets(ck, n_cases=None, proof=True):
             b['nl'] = open(stub + '.nl').read()
             b['options'] = cvt_options(opts)
             dis.append(b)
+    try:
+        d2, findings = ctx_cases(ck, exe, drv, wd, stats)
+    except Exception as ex:
+        d2, findings = [{'type': 'ctx', 'why': 'harness exception %r' % (ex,), 'case': 'ctx', 'ops': []}], []
+    dis += d2
+    res['findings'] = findings
     drv.close()
     res['disagreements'] = dis
     res['stats'] = stats
     ck.log('gadget correspondence: %d cases, %d recsolver runs, %d type-steps compared (%d constraint lines), %d refusals, %d disagreements, %.1fs'
            % (n_cases, stats['runs'], stats['compared'], stats['lines'], stats['refusals'], len(dis), time.time() - t0))
+    ck.log('  context rule cases: %d, oracle grid points: %d, points feasible for the delivered model but not the original: %d'
+           % (stats.get('ctx_cases', 0), stats.get('oracle_points', 0), len(findings)))
+    ck.log('  context edges (parent rule vs context stored on the argument definition) checked: %d' % stats.get('ctx_edges', 0))
     ck.log('  hit: ' + ', '.join('%s:%d' % kv for kv in sorted(stats['hit'].items())))
     if stats['unmodelled']:
         ck.log('  unmodelled (preprocessing shortcuts outside the model): ' + ', '.join('%s:%d' % kv for kv in sorted(stats['unmodelled'].items())))
